@@ -49,15 +49,18 @@ def load_findings():
         return json.load(f).get('findings', [])
 
 
-def match_finding(findings, pid, signature):
+def match_finding(findings, pid, signature, case=None):
     import fnmatch
     if '/handmade:' in signature or signature.endswith('/handmade'):
         # the same defect reproduced on a hand-shaped program (vlib/handprog.py) is the same finding
         base = signature.split('/handmade:')[0] if '/handmade:' in signature else signature[:-len('/handmade')]
-        hit = match_finding(findings, pid, base)
+        hit = match_finding(findings, pid, base, case)
         return hit if (hit is not None and hit.get('also_on_handmade_programs')) else None
     for f in findings:
         if f.get('property') != pid or f.get('status', 'open') != 'open':
+            continue
+        if f.get('cases') and not any(all((case or {}).get(k) == v for k, v in c.items()) for c in f['cases']):
+            # a finding recorded for specific inputs covers the witness only when it is one of them
             continue
         if f.get('signature') == signature:
             return f
@@ -221,7 +224,7 @@ def main(argv):
     lines = []
     for sig in sorted(viol_by_sig):
         v = viol_by_sig[sig]
-        f = match_finding(findings, pid, sig)
+        f = match_finding(findings, pid, sig, v.get('case') if isinstance(v.get('case'), dict) else None)
         h = hashlib.sha1(canonical(v.get('case')).encode()).hexdigest()[:10]
         safe = ''.join(c if c.isalnum() or c in '-_.' else '_' for c in sig)[:80]
         rdir = os.path.join(ROOT, 'replays', pid) if not a.no_evidence else os.path.join(scratch_base, 'replays', pid)
